@@ -306,9 +306,30 @@ func c15Run(r *zsim.Run) {
 			}
 			etcd.Connected = true
 			r.Logf("disconnected, %d unseen changes, reconnected -> reload", n)
+			// a subscriber joins while the reload is telling the others what changed; in some runs every snapshot
+			// read takes a few milliseconds and the newcomer arrives just after the reload's read came back, so
+			// that its own read is answered when the reload has finished with the listeners
+			joinDuring := func() bool {
+				if f.Intn(3) != 0 || len(subs) >= 4 {
+					return true
+				}
+				if !twice && f.Intn(2) == 0 {
+					etcd.GetDelay = time.Duration(zsim.Pick(o, 3, 5, 8)) * time.Millisecond
+					zsim.Sleep(etcd.GetDelay + time.Duration(o.Intn(3))*time.Millisecond)
+					r.Probe("join_during_reload_slow_reads")
+				}
+				together = true
+				ok := attach()
+				together = false
+				r.Probe("join_during_reload")
+				return ok
+			}
 			if seamed {
 				gets := etcd.Gets
 				etcd.Conn.Set(connectivity.Ready)
+				if !twice && !joinDuring() {
+					return
+				}
 				if twice {
 					zsim.Sleep(10 * time.Millisecond)
 					etcd.Conn.Set(connectivity.TransientFailure)
@@ -324,15 +345,8 @@ func c15Run(r *zsim.Run) {
 			} else {
 				done, want := 0, 1
 				r.Go("reload", func() { etcd.ZsimReload(endpoints); done++ })
-				if f.Intn(3) == 0 && len(subs) < 4 {
-					// a subscriber joins while the reload is telling the others what changed
-					together = true
-					ok := attach()
-					together = false
-					if !ok {
-						return
-					}
-					r.Probe("join_during_reload")
+				if !joinDuring() {
+					return
 				}
 				if twice {
 					want = 2
